@@ -2053,6 +2053,17 @@ def run(ctx: Context):
             fnorm = FlowNorm(fn, depth=8)
             cfg = fn.cfg()
             r.site(fn, None, "returns its Deferred")
+            if _is_inline_callbacks(fn):
+                # generator style: the caller always gets a Deferred, which fires when the generator finishes; what is left
+                # of the obligation is that the steps it starts are waited for (yielded) before it finishes
+                for (c, why) in _unawaited_steps(idx, fn, {x.split(".")[-1] for x in OPS}):
+                    r.violation(fn, fn.loc(c), "%s (inlineCallbacks) %s; its Deferred then fires before (or without) the "
+                                "operation being carried out" % (short(fn), why))
+                continue
+            if any(isinstance(x, (ast.Yield, ast.YieldFrom)) for x in func_own_nodes(fn)):
+                r.violation(fn, fn.loc(), "%s is a generator function without inlineCallbacks: its callers get a generator "
+                            "object instead of the Deferred of the work, and nothing is carried out" % short(fn))
+                continue
             for (sid, lab) in cfg.pred[cfg.exit.id]:
                 if lab == "exc":
                     continue
@@ -2263,6 +2274,129 @@ def run(ctx: Context):
     with ctx.rule("C09.17", "R5", "the share writers send what they queued: the remote slot_testv_and_readv_and_writev "
                   "call carries, under the writer's own share number, the data vectors (MDMF: the queue self._writevs "
                   "every put_* appends to; SDMF: the joined share)", expected=3) as r:
+        cg17 = get_callgraph(idx)
+
+        def bind_args(fn, call, h):
+            """{parameter of h: argument expression of `call`} (defaults for the parameters not passed), or None."""
+            a = h.node.args
+            if a.vararg or a.kwarg or any(isinstance(x, ast.Starred) for x in call.args) or any(k.arg is None for k in call.keywords):
+                return None
+            pos = [x.arg for x in list(a.posonlyargs) + list(a.args)]
+            dflt = dict(zip(pos[len(pos) - len(a.defaults):], a.defaults))
+            dflt.update({k.arg: d for (k, d) in zip(a.kwonlyargs, a.kw_defaults) if d is not None})
+            if h.cls is not None:
+                if not (isinstance(call.func, ast.Attribute) and attr_path(call.func.value) == "self" and pos):
+                    return None
+                pos = pos[1:]
+            if len(call.args) > len(pos):
+                return None
+            b = dict(zip(pos, call.args))
+            for k in call.keywords:
+                if k.arg in b or k.arg not in pos + [x.arg for x in a.kwonlyargs]:
+                    return None
+                b[k.arg] = k.value
+            for x in pos + [x.arg for x in a.kwonlyargs]:
+                if x not in b:
+                    if x not in dflt:
+                        return None
+                    b[x] = dflt[x]
+            return b
+
+        def built_by_helper(fn, fnorm, m, call, key_ok, data_ok, why, depth):
+            """`call` (evaluated at node m of fn) is a call of a package function that builds the test-and-write vectors:
+            True when every dict it can return holds the entry for the writer's share, False (reason in `why`) when it
+            returns something else, None when the callee is not a function of the package."""
+            hs = cg17.resolve(fn, call)
+            if not hs:
+                return None
+            if len(hs) != 1 or depth > 3:
+                raise AnalysisError("the test-and-write vectors of %s come from %s, which has %d candidate callees" % (
+                    short(fn), src(fn, call), len(hs)))
+            h = hs[0]
+            b = bind_args(fn, call, h)
+            if b is None or h.node.decorator_list or isinstance(h.node, ast.AsyncFunctionDef) or \
+                    any(isinstance(x, (ast.Yield, ast.YieldFrom)) for x in func_own_nodes(h)):
+                raise AnalysisError("cannot bind the arguments of %s in %s to %s" % (src(fn, call), short(fn), short(h)))
+            hcfg = h.cfg()
+            hnorm = FlowNorm(h, depth=8)
+            stored = {x for k in hcfg.nodes for x in node_stores(k)}
+
+            def param_of(k, e):
+                e = hnorm.resolve(k, e)
+                if isinstance(e, ast.Name) and e.id in b and e.id not in stored:
+                    return b[e.id]
+                return None
+
+            def hkey(_n, k, e):
+                a = param_of(k, e)
+                return a is not None and key_ok(fnorm, m, a)
+
+            def hdata(_n, k, e):
+                a = param_of(k, e)
+                return a is not None and data_ok(fnorm, m, a)
+            rets = [k for k in hcfg.nodes if k.kind == "stmt" and isinstance(k.ast, ast.Return)]
+            if not rets:
+                raise AnalysisError("%s, which builds the test-and-write vectors of %s, returns nothing" % (short(h), short(fn)))
+            ok = True
+            for k in rets:
+                v = k.ast.value
+                if v is not None and is_entry_dict(h, hnorm, k, v, hkey, hdata, why, depth):
+                    continue
+                if isinstance(v, ast.Name):
+                    probs = entry_paths(h, hcfg, hnorm, k, v.id, hkey, hdata, depth)
+                    why.extend(probs)
+                    ok = ok and not probs
+                else:
+                    why.append("%s returns %s" % (short(h), src(h, v) if v is not None else "None"))
+                    ok = False
+            return ok
+
+        def is_entry_dict(fn, fnorm, m, v, key_ok, data_ok, why, depth):
+            """v is {<own share number>: (test vector, <data vectors>, new length)}, literally or built by a helper."""
+            if isinstance(v, ast.Dict):
+                return len(v.keys) == 1 and v.keys[0] is not None and key_ok(fnorm, m, v.keys[0]) and \
+                    is_entry_value(fnorm, m, v.values[0], data_ok)
+            if isinstance(v, ast.Call):
+                return bool(built_by_helper(fn, fnorm, m, v, key_ok, data_ok, why, depth + 1))
+            return False
+
+        def is_entry_value(fnorm, m, v, data_ok):
+            return isinstance(v, ast.Tuple) and len(v.elts) == 3 and data_ok(fnorm, m, v.elts[1])
+
+        def entry_paths(fn, cfg, fnorm, n, tw, key_ok, data_ok, depth):
+            """Problems (messages) on the ways to node n, where the dict named `tw` is used: a store under another key or
+            of another value, or a path on which no entry for the writer's share was stored."""
+            probs = []
+            memo = {}
+
+            def entry(m):
+                if m.id not in memo:
+                    memo[m.id] = entry0(m)
+                return memo[m.id]
+
+            def entry0(m):
+                if m.kind != "stmt" or not isinstance(m.ast, ast.Assign) or len(m.ast.targets) != 1:
+                    return False
+                t = m.ast.targets[0]
+                v = m.ast.value
+                if attr_path(t) == tw:                   # tw_vectors = {self.shnum: (...)} / = make_tw_vectors(...)
+                    why = []
+                    ok = is_entry_dict(fn, fnorm, m, v, key_ok, data_ok, why, depth)
+                    probs.extend(why)
+                    return ok
+                if not (isinstance(t, ast.Subscript) and attr_path(t.value) == tw and key_ok(fnorm, m, t.slice)):
+                    return False
+                return is_entry_value(fnorm, m, v, data_ok)
+            for m in cfg.nodes:
+                if (tw + "[]") in node_stores(m) and not entry(m):
+                    probs.append("%s fills the test-and-write vectors with %s; the storage server applies "
+                                 "the entry {self.shnum: (test vector, data vectors, new length)}" % (short(fn), src(fn, m.ast)))
+            for (t, w) in find_path_avoiding(cfg, lambda x: x is n, gate_node=entry,
+                                             kill=lambda m: tw in node_stores(m) and not entry(m)):
+                probs.append("%s reaches %s without an entry for its share in the test-and-write vectors (path: %s)" % (
+                    short(fn), src(fn, n.ast)[:60], w.brief()))
+            return probs
+
         def transmits(fn, data_ok, what):
             cfg = fn.cfg()
             fnorm = FlowNorm(fn, depth=8)
@@ -2272,29 +2406,25 @@ def run(ctx: Context):
             n, c = calls[0]
             r.site(fn, c, what)
             tw = c.args[2] if len(c.args) > 2 else kwarg(c, "tw_vectors")
-            if not isinstance(tw, ast.Name):
-                raise AnalysisError("the test-and-write vectors sent by %s are %s" % (short(fn), src(fn, tw) if tw is not None else "missing"))
 
-            def entry(m):
-                if m.kind != "stmt" or not isinstance(m.ast, ast.Assign) or len(m.ast.targets) != 1:
-                    return False
-                t = m.ast.targets[0]
-                v = m.ast.value
-                if attr_path(t) == tw.id and isinstance(v, ast.Dict) and len(v.keys) == 1 and v.keys[0] is not None \
-                        and attr_path(v.keys[0]) == "self.shnum":
-                    v = v.values[0]                  # tw_vectors = {self.shnum: (...)}
-                elif not (isinstance(t, ast.Subscript) and attr_path(t.value) == tw.id and attr_path(t.slice) == "self.shnum"):
-                    return False
-                return isinstance(v, ast.Tuple) and len(v.elts) == 3 and data_ok(fnorm, m, v.elts[1])
-            wrong = [m for m in cfg.nodes if (tw.id + "[]") in node_stores(m) and not entry(m)]
-            for m in wrong:
-                r.violation(fn, fn.loc(m.ast), "%s fills the test-and-write vectors with %s; the storage server applies "
-                            "the entry {self.shnum: (test vector, data vectors, new length)}" % (short(fn), src(fn, m.ast)))
-            for (t, w) in find_path_avoiding(cfg, lambda x: x is n, gate_node=entry,
-                                             kill=lambda m: tw.id in node_stores(m) and not entry(m)):
+            def key_ok(_n, m, e):
+                return attr_path(e) == "self.shnum"
+            if isinstance(tw, (ast.Dict, ast.Call)):
+                why = []
+                if not is_entry_dict(fn, fnorm, n, tw, key_ok, data_ok, why, 0):
+                    if not why and isinstance(tw, ast.Call):
+                        raise AnalysisError("the test-and-write vectors sent by %s are %s" % (short(fn), src(fn, tw)))
+                    probs = why or ["%s sends %s" % (short(fn), src(fn, tw))]
+                else:
+                    probs = []
+            elif isinstance(tw, ast.Name):
+                probs = entry_paths(fn, cfg, fnorm, n, tw.id, key_ok, data_ok, 0)
+            else:
+                raise AnalysisError("the test-and-write vectors sent by %s are %s" % (short(fn), src(fn, tw) if tw is not None else "missing"))
+            for msg in probs:
                 r.violation(fn, fn.loc(c), "%s can call the storage server without an entry for its share in the "
                             "test-and-write vectors: the server answers success, nothing is written and the publish "
-                            "reports the share as placed (path: %s)" % (short(fn), w.brief()), w)
+                            "reports the share as placed (%s)" % (short(fn), msg))
         wfn = idx.func(WP + "._write")
         wps = first_positional_params(wfn)
         transmits(wfn, lambda fnorm, m, e: attr_path(fnorm.resolve(m, e)) == wps[0], "MDMF remote write")
@@ -2819,6 +2949,47 @@ def _def_of(fnorm, node, e):
             break
         node, e = dn, v
     return node, e
+
+
+def _is_inline_callbacks(fn):
+    """fn is a generator run by twisted's inlineCallbacks (the decorator is the only one)."""
+    decs = fn.node.decorator_list
+    if not any((attr_path(d) or "").split(".")[-1] == "inlineCallbacks" for d in decs):
+        return False
+    if len(decs) != 1 or not any(isinstance(x, ast.Yield) for x in func_own_nodes(fn)):
+        raise AnalysisError("%s is decorated with inlineCallbacks but %s" % (
+            short(fn), "has other decorators too" if len(decs) != 1 else "is not a generator"))
+    return True
+
+
+def _unawaited_steps(idx, fn, step_names):
+    """Calls in an inlineCallbacks function that start a step of the operation - a callable handed in as a parameter, or
+    a method of the write / update / read path - whose Deferred is not waited for: the call is neither the operand of a
+    yield nor bound to a local that is (a plain `return call` hands the caller a Deferred as a *result*)."""
+    yielded = set()
+    names = set()
+    for y in func_own_nodes(fn):
+        if isinstance(y, ast.Yield) and y.value is not None:
+            yielded.add(id(y.value))
+            if isinstance(y.value, ast.Name):
+                names.add(y.value.id)
+    bound = {}
+    for a in func_own_nodes(fn):
+        if isinstance(a, ast.Assign) and isinstance(a.value, ast.Call) and all(isinstance(t, ast.Name) for t in a.targets):
+            bound[id(a.value)] = [t.id for t in a.targets]
+    out = []
+    for c in func_own_nodes(fn):
+        if not isinstance(c, ast.Call):
+            continue
+        f = c.func
+        step = (isinstance(f, ast.Name) and f.id in fn.params) or \
+               (isinstance(f, ast.Attribute) and attr_path(f.value) == "self" and f.attr in step_names)
+        if not step or id(c) in yielded:
+            continue
+        if id(c) in bound and all(t in names for t in bound[id(c)]):
+            continue
+        out.append((c, "starts %s without waiting for it (the call is not yielded)" % src(fn, c)))
+    return out
 
 
 def _not_a_deferred(fn, fnorm, node, v):
